@@ -81,7 +81,7 @@ inline std::vector<uint32_t> default_probe_chars() {
     std::vector<uint32_t> v;
     for (uint32_t c = 0; c < 0x180; ++c) v.push_back(c);
     static const uint32_t extra[] = { 0x200B, 0x200C, 0x200D, 0x200E, 0x200F, 0x2028, 0x25CC, 0x0627, 0x0628, 0x064B, 0x1000, 0x1001, 0x102F, 0x1039, 0x0915, 0x094D,
-        0xD7FF, 0xD800, 0xDFFF, 0xE000, 0xFEFF, 0xFFFD, 0xFFFE, 0xFFFF, 0x10000, 0x1FFFF, 0x20000, 0xE0000, 0x100041, 0x10FFFD, 0x10FFFE, 0x10FFFF, 0x110000, 0xFFFFFFFF };
+        0xD7FF, 0xD800, 0xDFFF, 0xE000, 0xFEFF, 0xFFFD, 0xFFFE, 0xFFFF, 0x10000, 0x10020, 0x10061, 0x10062, 0x10063, 0x1FFFF, 0x20000, 0x20061, 0xE0000, 0x100041, 0x10FFFD, 0x10FFFE, 0x10FFFF, 0x110000, 0xFFFFFFFF };
     for (uint32_t c : extra) v.push_back(c);
     return v;
 }
